@@ -1142,6 +1142,11 @@ class Interp:
             if tb == "Future" and cal.method == "poll":
                 ptr, tv = self.future_target(args[0])
                 if isinstance(tv, Coro):
+                    leaf = self.models.extra.get("<Pin as Future>::poll")
+                    if leaf:
+                        # a world that treats coroutine values as opaque leaf futures (driver-logic world)
+                        self.stats.models["<Pin as Future>::poll"] += 1
+                        return leaf(self, cal, args)
                     return self.resume(tv, ptr, args[1])
                 if isinstance(tv, Opaque):
                     h = self.models.lookup(f"<{tv.tag} as Future>::poll")
